@@ -11,7 +11,10 @@ from robotools import liquidhandling
 from robotools.evotools.types import Tip
 from robotools.liquidhandling import Labware
 from robotools.worklists.exceptions import CompatibilityError, InvalidOperationError
-from robotools.worklists.utils import prepare_aspirate_dispense_parameters
+from robotools.worklists.utils import (
+    materialize_tip,
+    prepare_aspirate_dispense_parameters,
+)
 
 __all__ = ("BaseWorklist",)
 
@@ -476,6 +479,7 @@ class BaseWorklist(list):
             Most prominent example: `liquid_class`.
             Take a look at `Worklist.aspirate_well` for the full list of options.
         """
+        kwargs = materialize_tip(kwargs)
         wells = numpy.array(wells).flatten("F")
         volumes = numpy.array(volumes).flatten("F")
         if len(volumes) == 1:
@@ -516,6 +520,7 @@ class BaseWorklist(list):
             Most prominent example: `liquid_class`.
             Take a look at `Worklist.dispense_well` for the full list of options.
         """
+        kwargs = materialize_tip(kwargs)
         wells = numpy.array(wells).flatten("F")
         volumes = numpy.array(volumes).flatten("F")
         if len(volumes) == 1:
